@@ -104,4 +104,9 @@ theorem decHeader_spec (s : Bytes) (h : 0 < s.size) (hr : inRange s = true) :
               simp [Nat.shiftLeft_eq]
             · simp [readN]
 
+/-- `Sparse6Decode` has its own copy of the size-header reader and of the byte-range loop, with its own regenerated
+constants; they are the same functions -/
+theorem decHeaderS6_eq : decHeaderS6 = decHeader := rfl
+theorem inRangeS6_eq : inRangeS6 = inRange := rfl
+
 end Codec
